@@ -82,6 +82,9 @@ type VerifPoolTracker struct {
 	maxEvents  int
 	dropped    int
 
+	poisonLinks []*verifPoisonLink // per buffer, see poolpoison_verif.go
+	poisoned    []bool
+
 	// OnViolation, if set before the tracker is installed, is called (with the tracker's lock
 	// held) for every violation seen directly; a buffer owned twice usually crashes the router
 	// soon afterwards.
@@ -194,6 +197,7 @@ func (t *VerifPoolTracker) onPut(pkt *Packet) {
 		t.bufs[unsafe.Pointer(&pkt.buffer[bufSize-1])] = tok
 		t.inPool = append(t.inPool, true)
 		t.holder = append(t.holder, -1)
+		t.poison(pkt, tok)
 		return
 	}
 	g := t.thread(id, stage)
@@ -209,6 +213,7 @@ func (t *VerifPoolTracker) onPut(pkt *Packet) {
 	t.inPool[tok] = true
 	t.holder[tok] = -1
 	t.log(VerifPoolPut, tok, g)
+	t.poison(pkt, tok)
 }
 
 func (t *VerifPoolTracker) onGet(pkt *Packet) {
@@ -222,6 +227,7 @@ func (t *VerifPoolTracker) onGet(pkt *Packet) {
 		t.log(VerifPoolGet, -1, g)
 		return
 	}
+	t.checkPoison(pkt, tok, stage)
 	if !t.inPool[tok] {
 		t.violate(fmt.Sprintf(
 			"Get of a held buffer: buffer %d handed to stage %d while owned by thread %d",
